@@ -153,6 +153,36 @@ Definition reverse_twice (c : list A) : outcome (list A * list A) :=
   | OutOfFuel => OutOfFuel | BadDeref => BadDeref
   end.
 
+(* auto e = enumerate(c); then the range-for statement over the ONE adaptor object e run once per element of fs, pass j
+   with the body  x.value() = (nth j fs) x.index() x.value()  (keep_e for a read-only pass).  The adaptor is not
+   changed by begin()/end(): every pass starts from the stored begin_/end_ again *)
+Fixpoint enumerate_passes (fs : list (nat -> A -> A)) (c : list A) : outcome (list (list (nat * A)) * list A) :=
+  match fs with
+  | [] => Done ([], c)
+  | f :: r =>
+      match enumerate_for f c with
+      | Done (v, c1) =>
+          match enumerate_passes r c1 with
+          | Done (vs, c2) => Done (v :: vs, c2)
+          | OutOfFuel => OutOfFuel | BadDeref => BadDeref
+          end
+      | OutOfFuel => OutOfFuel | BadDeref => BadDeref
+      end
+  end.
+Fixpoint reverse_passes (fs : list (A -> A)) (c : list A) : outcome (list (list A) * list A) :=
+  match fs with
+  | [] => Done ([], c)
+  | f :: r =>
+      match reverse_for f c with
+      | Done (v, c1) =>
+          match reverse_passes r c1 with
+          | Done (vs, c2) => Done (v :: vs, c2)
+          | OutOfFuel => OutOfFuel | BadDeref => BadDeref
+          end
+      | OutOfFuel => OutOfFuel | BadDeref => BadDeref
+      end
+  end.
+
 (* for (auto x : enumerate(c)) for (auto y : enumerate(c)) ...  — the inner statement is run once per outer visit *)
 Definition enumerate_nested (c : list A) : outcome (list ((nat * A) * outcome (list (nat * A)))) :=
   match enumerate_for keep_e c with
@@ -241,3 +271,15 @@ End Two.
 Definition spec_enumerate {A} (c : list A) : list (nat * A) := combine (seq 0 (length c)) c.
 Definition spec_enumerate_write {A} (f : nat -> A -> A) (c : list A) : list A :=
   map (fun p => f (fst p) (snd p)) (combine (seq 0 (length c)) c).
+
+(* k passes over one adaptor object: pass j visits the range as pass j-1 left it, all of it, from index 0 *)
+Fixpoint spec_enumerate_passes {A} (fs : list (nat -> A -> A)) (c : list A) : list (list (nat * A)) * list A :=
+  match fs with
+  | [] => ([], c)
+  | f :: r => let (vs, c') := spec_enumerate_passes r (spec_enumerate_write f c) in (spec_enumerate c :: vs, c')
+  end.
+Fixpoint spec_reverse_passes {A} (fs : list (A -> A)) (c : list A) : list (list A) * list A :=
+  match fs with
+  | [] => ([], c)
+  | f :: r => let (vs, c') := spec_reverse_passes r (map f c) in (rev c :: vs, c')
+  end.
